@@ -10,7 +10,7 @@ import common
 import sched
 import scratch as sc
 
-NAMES = ["t1", "t10", "t2", "t20", "t3"]
+NAMES = ["t1", "t10", "t\u00fc", "t20", "t3"]  # prefix siblings and a non-ASCII name
 
 # edge (i, j): target i `uses` target j, i.e. i depends on j
 SHAPES = {
